@@ -184,6 +184,10 @@ func (g *influxqlGroup) getFieldKind(fields models.Fields) (reflect.Kind, error)
 		return reflect.Invalid, fmt.Errorf("field %q missing from point", g.bc.field)
 	}
 
+	if f == nil {
+		return reflect.Invalid, fmt.Errorf("field %q has no value", g.bc.field)
+	}
+
 	return reflect.TypeOf(f).Kind(), nil
 }
 func (g *influxqlGroup) realizeReduceContextFromFields(fields models.Fields) error {
@@ -279,11 +283,11 @@ func (n *InfluxQLNode) getCreateFn(kind reflect.Kind) (createReduceContextFunc, 
 	if !changed && n.createFn != nil {
 		return n.createFn, nil
 	}
-	n.currentKind = kind
 	createFn, err := determineReduceContextCreateFn(n.n.Method, kind, n.n.ReduceCreater)
 	if err != nil {
 		return nil, errors.Wrapf(err, "invalid influxql func %s with field %s", n.n.Method, n.n.Field)
 	}
+	n.currentKind = kind
 	n.createFn = createFn
 	return n.createFn, nil
 }
